@@ -27,3 +27,16 @@ Theorem C19_solver_history : forall (V : Type) (d : V) (plus1 : V -> V) (m : sbm
   = Some (nth i th d) /\
   run_of V (prev ++ simulate_calls V d plus1 m outs th times) = Some (plus1 (last times d), outs, times).
 Proof. exact simulate_forgets_history. Qed.
+
+(* (4) whole histories: the vectors a reduced object hands to the object it wraps along ANY sequence of evaluations
+   are those a fresh copy of the initial object would hand over one by one; the sensitivity setting used by each
+   evaluation of a history is a function of that evaluation's entry point alone *)
+Theorem C19_transcript_pure : forall (V : Type) (s : cstate V) (history : list (list V)),
+  transcript s history = map (cexpand s) history.
+Proof. exact (@transcript_pure). Qed.
+Theorem C19_settings_pure : forall flag history,
+  settings flag history = map (fun o => match o with ValueWithSensitivities => true | _ => false end) history.
+Proof. exact settings_pure. Qed.
+Example C19_settings_nonvacuous :
+  settings true [Value; ValueWithSensitivities; PointwiseValues; ValueWithSensitivities] = [false; true; false; true].
+Proof. reflexivity. Qed.
